@@ -204,9 +204,12 @@ def run(ctx):
                       f"the {nm} may be separated from its atom by blanks, so it can bind to the wrong atom or swallow the next group's count", site)
             ctx.check(not part.skip, "R3", f"{nm} does not skip blanks before matching", f"{nm} skips leading blanks", site)
         # absent tags: count 1, no isotope, no charge - observed on a bare symbol (what the optional parts hand on is internal)
-        bare = I.call(I.global_name("formulas", "formula"), ["Fe"], {"table": w.table})
-        ba = I.getattr(bare, "atoms")
-        ctx.check(isinstance(ba, dict) and len(ba) == 1 and next(iter(ba)) is w.element("Fe") and sp.sympify(next(iter(ba.values()))) == 1, "R3",
+        rr_bare = raises(lambda: I.getattr(I.call(I.global_name("formulas", "formula"), ["Fe"], {"table": w.table}), "atoms"))
+        if rr_bare is not None:
+            ctx.fail("R3", "absent tags default to count 1, no isotope, no charge", f"reading 'Fe' raises {rr_bare}", site)
+        bare = I.call(I.global_name("formulas", "formula"), ["Fe"], {"table": w.table}) if rr_bare is None else None
+        ba = I.getattr(bare, "atoms") if bare is not None else None
+        ctx.check(rr_bare is not None or isinstance(ba, dict) and len(ba) == 1 and next(iter(ba)) is w.element("Fe") and sp.sympify(next(iter(ba.values()))) == 1, "R3",
                   "absent tags default to count 1, no isotope, no charge", f"'Fe' is read as {_s(ba)}", site)
     top = gram
     ends = isinstance(top, peg.And) and isinstance(top.exprs[-1], peg.StringEnd)
